@@ -1,2 +1,53 @@
-(* C13 t-digest part -- being written *)
-From DS Require Import Base.Prelude Model.TDigestCodec Spec.TDigestLayout.
+(* C13, t-digest part -- every image variant Java / C++ / the reference implementation can emit is
+   read back to the state it encodes.  Stated for ALL byte strings rather than per writer variant:
+   (soundness) whatever the modelled reader accepts, it reads exactly what the layout decoder says;
+   (completeness) every image whose layout content is admissible -- k >= 10, finite values, weights
+   >= 1 with total < 2^64, min / max not NaN and present exactly when there is data -- is accepted and
+   yields exactly that content.  Covers the double and float flavours (f32 fields denote their exact
+   f64 value: Base/TDigestBits.v f64_of_f32), empty / single / general forms with buffered values,
+   any contents of the unused bytes and undefined flag bits, and the two big-endian formats of the
+   reference implementation (weights and compression stored as floating point numbers).
+   Statements only; proofs in Proofs/TDigestLayoutProofs.v. *)
+From DS Require Import Base.Prelude Base.TDigestBits Model.TDigestCodec Spec.TDigestLayout Proofs.TDigestCodec Proofs.TDigestLayoutProofs.
+Open Scope N_scope.
+
+(* DataSketches images (family byte 20); [fl is_f32] = Float / Double *)
+Theorem c13_tdigest_reads_what_the_layout_says : forall is_f32 bs s, nth 2 bs 0 = FAMID -> tdb_dec is_f32 bs = Ok s ->
+  exists a, spec_decode (fl is_f32) bs = Some a /\ a_k a = b_k s /\ a_cs a = b_cs s /\ a_buf a = b_buf s /\
+            (tdb_is_empty s = false -> a = abs_of s).
+Proof. exact dec_reads_layout. Qed.
+
+Theorem c13_tdigest_admissible_images_accepted : forall is_f32 bs a,
+  nth 2 bs 0 = FAMID -> spec_decode (fl is_f32) bs = Some a -> abs_admissible a = true ->
+  exists s, tdb_dec is_f32 bs = Ok s /\ abs_of s = a.
+Proof. exact layout_accepted. Qed.
+
+(* reference-implementation images (three leading zero bytes), whatever is_f32 says *)
+Theorem c13_tdigest_ref_reads_what_the_layout_says : forall is_f32 bs s,
+  (3 <= length bs)%nat -> is_ref_image bs = true -> tdb_dec is_f32 bs = Ok s ->
+  exists a, spec_decode_ref bs = Some a /\ a_k a = b_k s /\ a_cs a = b_cs s /\ a_buf a = b_buf s /\
+            (tdb_is_empty s = false -> a = abs_of s).
+Proof. exact ref_reads_layout. Qed.
+
+Theorem c13_tdigest_ref_admissible_images_accepted : forall is_f32 bs a,
+  is_ref_image bs = true -> spec_decode_ref bs = Some a -> abs_admissible a = true ->
+  exists s, tdb_dec is_f32 bs = Ok s /\ abs_of s = a.
+Proof. exact ref_accepted. Qed.
+
+(* non-vacuity: a float-flavour image with one centroid (2.5f, w 3), one buffered value 1.0f, min 1.0f,
+   max 4.0f, garbage in the unused bytes and in the undefined flag bits; and a reference asSmallBytes
+   image with two centroids of (float) weight 1 and 2 *)
+Example c13_tdigest_example :
+  let img := [2; 1; 20; 200; 0; 0xf8; 0xab; 0xcd;  1; 0; 0; 0;  1; 0; 0; 0;  0; 0; 0x80; 0x3f;  0; 0; 0x80; 0x40;
+              0; 0; 0x20; 0x40;  3; 0; 0; 0;  0; 0; 0x80; 0x3f] in
+  let a := mkTdAbs 200 false (Some (0x3ff0000000000000, 0x4010000000000000)) [(0x4004000000000000, 3)] [0x3ff0000000000000] in
+  spec_decode Float img = Some a /\ abs_admissible a = true /\
+  (exists s, tdb_dec true img = Ok s /\ abs_of s = a) /\
+  let ref := [0; 0; 0; 2;  0x3f; 0xf0; 0; 0; 0; 0; 0; 0;  0x40; 0x10; 0; 0; 0; 0; 0; 0;  0x42; 0xc8; 0; 0;  0; 0xd2; 4; 0x1a;  0; 2;
+              0x3f; 0x80; 0; 0;  0x3f; 0x80; 0; 0;   0x40; 0; 0; 0;  0x40; 0x80; 0; 0] in
+  spec_decode_ref ref = Some (mkTdAbs 100 false (Some (0x3ff0000000000000, 0x4010000000000000))
+                                [(0x3ff0000000000000, 1); (0x4010000000000000, 2)] []).
+Proof.
+  cbv zeta. split; [vm_compute; reflexivity|]. split; [vm_compute; reflexivity|]. split; [|vm_compute; reflexivity].
+  eexists. split; vm_compute; reflexivity.
+Qed.
